@@ -230,7 +230,7 @@ def mail_text(spec):
 WT = b"wt"
 GITDIR = b"wt/.git"
 # what a checkout-like command may legitimately write below .git (bookkeeping of the command itself)
-ALLOW_EXACT = {b"index", b"HEAD", b"ORIG_HEAD", b"packed-refs", b"refs", b"logs", b"objects", b"rebase-apply"}
+ALLOW_EXACT = {b"index", b"HEAD", b"ORIG_HEAD", b"packed-refs", b"refs", b"logs", b"objects", b"rebase-apply", b"info/sparse-checkout"}
 ALLOW_PREFIX = (b"refs/", b"logs/", b"objects/", b"rebase-apply/")
 
 
@@ -341,12 +341,13 @@ def initial_state(cfg, with_wt=True):
 
 TREE_OPS = ["checkout", "checkout_force", "switch", "reset_hard", "reset_mixed", "reset_soft", "stash_apply", "patch_add", "patch_del", "am",
             "checkout_paths", "restore_paths", "patch_rename", "patch_copy_to"]
-PLAIN_OPS = ["reset_index", "stash_push", "stash_pop", "am_abort"]
+PLAIN_OPS = ["reset_index", "stash_push", "stash_pop", "am_abort", "sparse_all", "sparse_none"]
 ENTRY = {
     "clone": "clone", "checkout": "checkout", "checkout_force": "checkout", "switch": "switch", "reset_hard": "reset-hard",
     "reset_mixed": "reset-mixed", "reset_soft": "reset-soft", "reset_index": "reset_index", "stash_push": "stash_push",
     "stash_pop": "stash_pop", "stash_apply": "stash_pop", "patch_add": "apply_patch", "patch_del": "apply_patch", "am": "am", "am_abort": "am_abort",
     "checkout_paths": "checkout-paths", "restore_paths": "restore", "patch_rename": "apply_patch", "patch_copy_to": "apply_patch",
+    "sparse_all": "sparse_checkout", "sparse_none": "sparse_checkout",
 }
 
 
@@ -448,6 +449,10 @@ def perform(S, op):
             porcelain.am(wt, patches=io.BytesIO(mail_text(spec)), committer=b"C <c@example.com>", commit_timestamp=1000000000, commit_timezone=0)
         elif kind == "am_abort":
             porcelain.am_abort(wt)
+        elif kind == "sparse_all":  # every index entry included: missing ones are materialised
+            porcelain.sparse_checkout(wt, patterns=["*"], force=True, cone=False)
+        elif kind == "sparse_none":  # no index entry included: present ones are removed
+            porcelain.sparse_checkout(wt, patterns=["/c17-no-such-path"], force=True, cone=False)
         else:
             raise HarnessError("unknown op %r" % (kind,))
         return "ok"
@@ -555,7 +560,7 @@ def state_key(S, snapshot):
         ix = files.get(GITDIR + b"/index")
         if ix is not None:
             try:
-                index_items = tuple((e.name, e.mode, e.sha, e.stage) for e in indexfile.parse(ix[3]).entries)
+                index_items = tuple((e.name, e.mode, e.sha, e.stage, e.xflags) for e in indexfile.parse(ix[3]).entries)
             except indexfile.IndexFormatError as e:
                 index_items = "unreadable:" + e.code
         lg = files.get(GITDIR + b"/logs/refs/stash")
@@ -759,7 +764,11 @@ def attribute(S, snapshot, op, focus, expect_before, must_exist):
     while len(names) > 1 and names[-1] in GENERIC:
         alias = GENERIC[names.pop()]
     site = names[-1] + (">" + alias if alias else "") if names else "unattributed"
-    return site, {"through-symlinked-dir": "via-symlinked-dir", "through-final-symlink": "via-final-symlink"}.get(h["how"], "direct")
+    how = {"through-symlinked-dir": "via-symlinked-dir", "through-final-symlink": "via-final-symlink"}.get(h["how"], "direct")
+    lit = os.path.abspath(h["literal"])  # lexical; an absolute / dot-dot path that never was below the work tree is 'direct'
+    if not (lit + b"/").startswith(os.path.join(os.path.abspath(os.fsencode(S)), WT) + b"/"):
+        how = "direct"
+    return site, how
 
 
 # helpers that only wrap one system call: the violation is named after their caller
@@ -836,6 +845,23 @@ def fam_triples(kinds):
             for third in (E(b"git~1", "f"), E(b".git", "f"), E(b"..", "L:updir"), E(b"dir/a", "x")):
                 out.append(canon((E(b"a", k), second, third)))
     return out
+
+
+def fam_prefix(link_ids):
+    """Sibling names that share leading CHARACTERS but are different path components (ab / ac, a / ab,
+    a/bc / a/bd): a real directory under the earlier name, the link (or, in the next tree, a directory
+    of the link's name) under the later one, plus the mirrored order as control.  For routes that keep
+    one verified-prefix cache over a whole sorted iteration (build_index_from_tree, Stash.pop)."""
+    def d(n, *extra):
+        return E(n, "D", (E(b"a", "f"),) + extra)
+    out = [()]
+    for t in link_ids:
+        lk = "L:" + t
+        out += [canon((d(b"ab"), E(b"ac", lk))), canon((E(b"ab", lk), d(b"ac"))), canon((d(b"a"), E(b"ab", lk))),
+                (E(b"a", "D", canon((d(b"bc"), E(b"bd", lk)))),)]
+    out += [canon((d(b"ab"), d(b"ac"))), canon((d(b"ab", E(b"b", "f")), d(b"ac"))), canon((d(b"a"), d(b"ab"))),
+            (E(b"a", "D", canon((d(b"bc"), d(b"bd")))),)]
+    return _dedupe(out)
 
 
 POISON = E(b"git~1", "f")  # sorts after 'a' and 'dir'; refused under the default configuration
@@ -1133,6 +1159,11 @@ def run(ctx):
             stats.append(bfs(ctx, "A-unborn-HEAD", cfg, None, None, None, 1, first_ops=single_step_ops(trees, unbornA)))
         # reset --soft T ; WorkTree.reset_index()  == the tail of a clone, under every configuration
         stats.append(bfs_pairs(ctx, "A-reset_index", cfg, [[("reset_soft", t), ("reset_index", None)] for t in trees]))
+    # reset --mixed T ; sparse-checkout (all included / none included): the index entries of T are materialised / removed
+    famSparse = _dedupe(fam_single(LEAF_KINDS) + fam_nested(NAMES, NAMES, ["f"])) if q else famA
+    for cfg in (["default"] if q else ["default", "ntfs-off+hfs-on"]):
+        stats.append(bfs_pairs(ctx, "A-sparse", cfg, [[("reset_mixed", t), (k, None)] for t in famSparse for k in ("sparse_all", "sparse_none")]))
+    ctx.coverage["family_A_sparse_trees"] = len(famSparse)
     ctx.coverage["family_A"] = planA
 
     # ---- B. sequences: the same names come back with a different kind, through every entry point
@@ -1154,7 +1185,21 @@ def run(ctx):
                                                        poison_for=("f", "L:updir", "L:gitfile", "D")), TREE_OPS, 2))
     for label, cfg, uni, tops, depth in planB:
         stats.append(bfs(ctx, label, cfg, uni, tops, PLAIN_OPS, depth, prefix=base))
-    uniB = planB[0][2]
+    # prefix-sharing sibling names: every ordered pair (T1, T2) of the family, T1 checked out, then T2 through the routes that
+    # keep ONE verified-prefix cache over the whole iteration (reset_index -> build_index_from_tree, Stash.pop) and, as the
+    # per-path control, through reset --hard
+    famP = fam_prefix(["updir", "hooks"] if q else ["updir", "absdir", "hooks", "git"])
+    seqP = []
+    for t1 in famP:
+        for t2 in famP:
+            if t1 and t2 and t1 != t2:
+                seqP.append([("reset_soft", ()), ("checkout_force", t1), ("reset_soft", t2), ("reset_index", None)])
+                seqP.append([("reset_soft", ()), ("checkout_force", t1), ("stash_apply", t2)])
+                if not q:
+                    seqP.append([("reset_soft", ()), ("checkout_force", t1), ("reset_hard", t2)])
+    for cfg in (["default"] if q else ["default", "ntfs-off"]):
+        stats.append(bfs_pairs(ctx, "B-prefix-pairs", cfg, seqP))
+    ctx.coverage["family_prefix_trees"] = len(famP)
     ctx.coverage["family_A_trees"] = len(famA)
     ctx.coverage["family_B"] = [{"search": p[0], "config": p[1], "trees": len(p[2]), "tree_ops": p[3], "plain_ops": PLAIN_OPS, "depth": p[4]} for p in planB]
 
@@ -1175,7 +1220,7 @@ def run(ctx):
         bounds={"names": len(NAMES), "leaf_kinds": len(LEAF_KINDS), "link_targets": len(LINK_IDS), "max_entries_per_level": 2 if q else 3, "max_tree_depth": "2 (+ one depth-3 tree a/dir/a in the sequence universes)",
                 "family_A_trees": len(famA), "family_A_names_matrix": len(famNames)},
     )
-    for s in famA[:3] + uniB[:3]:
+    for s in famA[:3] + planB[0][2][:3]:
         ctx.acc.sample(show(s))
     ctx.assumptions += [
         "absolute paths are represented by /proc/self/cwd/abs/... with the worker's cwd set to the sandbox (position independent, resolved by the kernel)",
@@ -1206,7 +1251,7 @@ def warmup():
         case_sequence(sub, cfg, [("clone", t1)])
         case_sequence(sub, cfg, [("reset_soft", ()), ("checkout", t1), ("switch", ()), ("checkout_force", t1), ("reset_mixed", t2), ("stash_push", None),
                                  ("stash_pop", None), ("reset_hard", t1), ("stash_apply", t1), ("patch_add", t2), ("patch_del", t1), ("reset_index", None),
-                                 ("checkout_paths", t2), ("restore_paths", t1), ("patch_rename", t1), ("patch_copy_to", t2),
+                                 ("checkout_paths", t2), ("restore_paths", t1), ("patch_rename", t1), ("patch_copy_to", t2), ("sparse_none", None), ("sparse_all", None),
                                  ("am", t2), ("am", t2), ("am_abort", None), ("reset_soft", t2), ("reset_hard", ())])
     # a deliberately failing am leaves state for am_abort
     case_sequence(sub, "default", [("reset_soft", ()), ("am", (E(b".git", "f"),)), ("am_abort", None)])
@@ -1254,7 +1299,7 @@ def bfs_pairs(ctx, label, cfg, seqs):
     for acc, k in pmap_forked(work_prefixed, tasks, ctx.jobs):
         ctx.acc.merge(acc)
         keys |= k
-    return {"search": label, "config": cfg, "sequences": len(seqs), "states": len(keys), "depth_completed": 2, "capped": False}
+    return {"search": label, "config": cfg, "sequences": len(seqs), "states": len(keys), "depth_completed": max(len(x) for x in seqs), "capped": False}
 
 
 def work_replay(task):
